@@ -943,6 +943,222 @@ func extractCfgShape(f *ast.File) cfgShape {
 
 // ---------------------------------------------------------------- output
 
+// ---------------------------------------------------------------- where the policy table comes from
+
+type polWrite struct {
+	site, key string
+	value     int
+}
+
+type polShape struct {
+	setDefaultsInstalls, defaultCalls, loadCalls, applyWrites bool
+	jsonKeys                                                   []string
+	keyed                                                      []polWrite
+	unknown                                                    []string
+}
+
+func mentions(n ast.Node, what string) bool {
+	found := false
+	ast.Inspect(n, func(x ast.Node) bool {
+		switch v := x.(type) {
+		case *ast.Ident:
+			if v.Name == what {
+				found = true
+			}
+		}
+		return !found
+	})
+	return found
+}
+
+// callsOwn reports whether the body contains the statement `<recv>.<name>()`.
+func callsOwn(fd *ast.FuncDecl, name string) bool {
+	r := recvName(fd)
+	for _, st := range fd.Body.List {
+		if es, ok := st.(*ast.ExprStmt); ok && str(es.X) == r+"."+name+"()" {
+			return true
+		}
+	}
+	return false
+}
+
+func jsonTag(f *ast.Field) string {
+	if f.Tag == nil {
+		return ""
+	}
+	t, err := strconv.Unquote(f.Tag.Value)
+	if err != nil {
+		die("struct tag %s", f.Tag.Value)
+	}
+	v := reflect.StructTag(t).Get("json")
+	if i := strings.Index(v, ","); i >= 0 {
+		v = v[:i]
+	}
+	return v
+}
+
+// policyFields lists the JSON keys of the fields of the named struct (and of struct types of the same file it
+// points to) that could carry a policy table: map-typed, or named like the policy.
+func policyFields(f *ast.File, name string, seen map[string]bool) []string {
+	if seen[name] {
+		return nil
+	}
+	seen[name] = true
+	var out []string
+	for _, d := range f.Decls {
+		gd, ok := d.(*ast.GenDecl)
+		if !ok {
+			continue
+		}
+		for _, sp := range gd.Specs {
+			ts, ok := sp.(*ast.TypeSpec)
+			if !ok || ts.Name.Name != name {
+				continue
+			}
+			st, ok := ts.Type.(*ast.StructType)
+			if !ok {
+				continue
+			}
+			for _, fl := range st.Fields.List {
+				key := jsonTag(fl)
+				names := ""
+				for _, n := range fl.Names {
+					names += n.Name
+				}
+				if len(fl.Names) == 0 {
+					// embedded field: its own fields are promoted
+					out = append(out, policyFields(f, strings.TrimPrefix(str(fl.Type), "*"), seen)...)
+					continue
+				}
+				if key == "" {
+					key = names
+				}
+				_, isMap := fl.Type.(*ast.MapType)
+				if isMap || strings.Contains(strings.ToLower(names+key), "policy") {
+					out = append(out, key)
+					continue
+				}
+				out = append(out, policyFields(f, strings.TrimPrefix(str(fl.Type), "*"), seen)...)
+			}
+		}
+	}
+	return out
+}
+
+// policyWriters walks every non-test Go file of the repository and classifies each place that writes the table:
+// an assignment whose left side mentions RPCPolicy / DefaultRPCPolicy, a delete() on it, a composite-literal field.
+func policyWriters(repo string, sh *polShape) {
+	filepath.Walk(repo, func(p string, info os.FileInfo, err error) error {
+		if err != nil {
+			return nil
+		}
+		if info.IsDir() {
+			b := info.Name()
+			if b == "vendor" || b == "sharness" || b == "testdata" || (strings.HasPrefix(b, ".") && p != repo) {
+				return filepath.SkipDir
+			}
+			return nil
+		}
+		if !strings.HasSuffix(p, ".go") || strings.HasSuffix(p, "_test.go") || strings.HasPrefix(filepath.Base(p), "verif_export") {
+			return nil
+		}
+		src, rerr := os.ReadFile(p)
+		if rerr != nil || !bytes.Contains(src, []byte("RPCPolicy")) {
+			return nil
+		}
+		f := parseFile(p)
+		dir, _ := filepath.Rel(repo, filepath.Dir(p))
+		if dir == "." {
+			dir = "root"
+		}
+		for _, decl := range f.Decls {
+			fd, ok := decl.(*ast.FuncDecl)
+			if !ok || fd.Body == nil {
+				continue
+			}
+			site := dir + "." + fd.Name.Name
+			ast.Inspect(fd.Body, func(n ast.Node) bool {
+				switch v := n.(type) {
+				case *ast.AssignStmt:
+					for i, l := range v.Lhs {
+						if !mentions(l, "RPCPolicy") && !mentions(l, "DefaultRPCPolicy") {
+							continue
+						}
+						if dir == "root" && fd.Name.Name == "setDefaults" && len(v.Lhs) == 1 && len(v.Rhs) == 1 && v.Tok == token.ASSIGN &&
+							str(l) == recvName(fd)+".RPCPolicy" && str(v.Rhs[0]) == "DefaultRPCPolicy" {
+							sh.setDefaultsInstalls = true
+							continue
+						}
+						if ix, ok := l.(*ast.IndexExpr); ok && len(v.Lhs) == len(v.Rhs) && v.Tok == token.ASSIGN {
+							if sel, ok := ix.X.(*ast.SelectorExpr); ok && sel.Sel.Name == "RPCPolicy" {
+								if lit, ok := ix.Index.(*ast.BasicLit); ok && lit.Kind == token.STRING {
+									key, _ := strconv.Unquote(lit.Value)
+									rhs := str(v.Rhs[i])
+									if j := strings.LastIndex(rhs, "."); j >= 0 {
+										rhs = rhs[j+1:]
+									}
+									if val, ok := constNames[rhs]; ok {
+										sh.keyed = append(sh.keyed, polWrite{site, key, val})
+										continue
+									}
+								}
+							}
+						}
+						sh.unknown = append(sh.unknown, site+": "+str(v))
+					}
+				case *ast.IncDecStmt:
+					if mentions(v.X, "RPCPolicy") || mentions(v.X, "DefaultRPCPolicy") {
+						sh.unknown = append(sh.unknown, site+": "+str(v))
+					}
+				case *ast.CallExpr:
+					if id, ok := v.Fun.(*ast.Ident); ok && id.Name == "delete" && len(v.Args) > 0 &&
+						(mentions(v.Args[0], "RPCPolicy") || mentions(v.Args[0], "DefaultRPCPolicy")) {
+						sh.unknown = append(sh.unknown, site+": "+str(v))
+					}
+				case *ast.KeyValueExpr:
+					if id, ok := v.Key.(*ast.Ident); ok && id.Name == "RPCPolicy" {
+						sh.unknown = append(sh.unknown, site+": "+str(v))
+					}
+				case *ast.UnaryExpr:
+					// &cfg.RPCPolicy handed to something that may fill it
+					if v.Op == token.AND && (mentions(v.X, "RPCPolicy") || mentions(v.X, "DefaultRPCPolicy")) {
+						sh.unknown = append(sh.unknown, site+": "+str(v))
+					}
+				}
+				return true
+			})
+		}
+		return nil
+	})
+	sort.Slice(sh.keyed, func(i, j int) bool {
+		return sh.keyed[i].site+sh.keyed[i].key < sh.keyed[j].site+sh.keyed[j].key
+	})
+	sort.Strings(sh.unknown)
+}
+
+func extractPolShape(repo string) polShape {
+	var sh polShape
+	f := parseFile(filepath.Join(repo, "cluster_config.go"))
+	sh.defaultCalls = callsOwn(funcDecl(f, "Config", "Default"), "setDefaults")
+	sh.loadCalls = callsOwn(funcDecl(f, "Config", "LoadJSON"), "setDefaults")
+	ac := funcDecl(f, "Config", "applyConfigJSON")
+	sh.applyWrites = mentions(ac.Body, "RPCPolicy")
+	sh.jsonKeys = policyFields(f, "configJSON", map[string]bool{})
+	// LoadJSON and ApplyEnvVars must end in applyConfigJSON, the only place that copies configJSON into Config
+	for _, n := range []string{"LoadJSON", "ApplyEnvVars"} {
+		fd := funcDecl(f, "Config", n)
+		last := fd.Body.List[len(fd.Body.List)-1]
+		if str(last) != "return "+recvName(fd)+".applyConfigJSON(jcfg)" {
+			die("%s does not end in applyConfigJSON: %s", n, str(last))
+		}
+		if mentions(fd.Body, "RPCPolicy") {
+			sh.applyWrites = true
+		}
+	}
+	policyWriters(repo, &sh)
+	return sh
+}
+
 func leanStrList(l []string) string {
 	q := make([]string, len(l))
 	for i, s := range l {
@@ -1020,6 +1236,7 @@ func main() {
 	raft.addPeerOp = addPeerEffect(funcDecl(raftFile, "Consensus", "AddPeer"), "", raft.trustOp)
 	callers := trustCallers(repo, []string{".", "consensus/crdt", "consensus/raft", "api/rest", "api/ipfsproxy", "pstoremgr", "cmdutils"})
 	cs := extractCfgShape(parseFile(filepath.Join(repo, "consensus/crdt/config.go")))
+	ps := extractPolShape(repo)
 
 	// --- emit
 	var b strings.Builder
@@ -1076,6 +1293,17 @@ func main() {
 	w("/-- consensus/crdt/config.go: Default, LoadJSON, ApplyEnvVars, applyJSONConfig (toJSONConfig is the known shape) -/\n")
 	w("def cfgShape : CfgShape := {\n  defaultTrustAll := %v,\n  loadDefaults := %v,\n  loadResetsTrustAll := %v,\n  applyResetsTrustAll := %v,\n  applyResetsPeers := %v }\n\n",
 		cs.defaultTrustAll, cs.loadDefaults, cs.loadResetsTrustAll, cs.applyResetsTrustAll, cs.applyResetsPeers)
+	w("/-- cluster_config.go (Default, LoadJSON, ApplyEnvVars, applyConfigJSON, setDefaults, configJSON) and every other\n")
+	w("    non-test place of the repository that writes RPCPolicy / DefaultRPCPolicy -/\n")
+	w("def polShape : PolShape := {\n  setDefaultsInstalls := %v,\n  defaultCallsSetDefaults := %v,\n  loadCallsSetDefaults := %v,\n  jsonPolicyKeys := %s,\n  applyWritesPolicy := %v,\n  keyedWrites := [",
+		ps.setDefaultsInstalls, ps.defaultCalls, ps.loadCalls, leanStrList(ps.jsonKeys), ps.applyWrites)
+	for i, k := range ps.keyed {
+		if i > 0 {
+			w(", ")
+		}
+		w("{ dir := %s, fn := %s, key := %s, value := %d }", strconv.Quote(k.site[:strings.LastIndex(k.site, ".")]), strconv.Quote(k.site[strings.LastIndex(k.site, ".")+1:]), strconv.Quote(k.key), k.value)
+	}
+	w("],\n  unknownWrites := %s }\n\n", leanStrList(ps.unknown))
 	w("end CV.C07.Gen\n")
 	fmt.Print(b.String())
 }
